@@ -1,6 +1,6 @@
 //! C16 -- pointing at a name finds the symbol that carries it.
 use crate::common::*;
-use crate::c15::{filter_of, mk_type, ref_symbols, Seq, CAP};
+use crate::c15::filter_of;
 use aidl_parser::ast;
 use aidl_parser::symbol::Symbol;
 use aidl_parser::traverse::{self, SymbolFilter};
@@ -40,38 +40,34 @@ fn doc_tree() -> ast::Aidl {
         declared_parcelables: Vec::new(), item: ast::Item::Interface(it) }
 }
 
-struct RSeq { s: [(usize, usize, usize); CAP], n: usize }
-fn ref_ranges(a: &ast::Aidl, level: u8) -> RSeq {
-    let mut out = RSeq { s: [(0, 0, 0); CAP], n: 0 };
-    let mut push = |r: &ast::Range| { if out.n < CAP { out.s[out.n] = (r.start.line_col.0, r.start.line_col.1, r.end.line_col.1); } out.n += 1; };
-    if level == 2 { push(&a.package.symbol_range); push(&a.imports[0].symbol_range); }
-    if let ast::Item::Interface(ref it) = a.item {
-        push(&it.symbol_range);
-        if level >= 1 {
-            if let ast::InterfaceElement::Method(ref m) = it.elements[0] {
-                push(&m.symbol_range);
-                if level == 2 {
-                    push(&m.return_type.symbol_range); push(&m.return_type.generic_types[0].symbol_range);
-                    push(&m.args[0].symbol_range);
-                    push(&m.args[0].arg_type.generic_types[0].symbol_range); push(&m.args[0].arg_type.symbol_range);
-                }
-            }
-        }
+/// name ranges in the order the property prescribes for this document, per level (line, start col, end col)
+const ORDER_ALL: [(usize, usize, usize); 9] = [(1, 9, 11), (2, 8, 12), (3, 11, 14), (4, 13, 16), (4, 3, 7), (4, 8, 11), (4, 27, 29), (4, 21, 24), (4, 21, 24)];
+
+fn first_containing(level: u8, line: usize, col: usize) -> Option<(usize, usize, usize)> {
+    let hit = |r: (usize, usize, usize)| r.0 == line && r.1 <= col && col <= r.2;
+    if level == 2 {
+        if hit(ORDER_ALL[0]) { return Some(ORDER_ALL[0]); }
+        if hit(ORDER_ALL[1]) { return Some(ORDER_ALL[1]); }
     }
-    out
+    if hit(ORDER_ALL[2]) { return Some(ORDER_ALL[2]); }
+    if level >= 1 && hit(ORDER_ALL[3]) { return Some(ORDER_ALL[3]); }
+    if level == 2 {
+        if hit(ORDER_ALL[4]) { return Some(ORDER_ALL[4]); }
+        if hit(ORDER_ALL[5]) { return Some(ORDER_ALL[5]); }
+        if hit(ORDER_ALL[6]) { return Some(ORDER_ALL[6]); }
+        if hit(ORDER_ALL[7]) { return Some(ORDER_ALL[7]); }
+    }
+    None
 }
 
 #[kani::proof]
-#[kani::unwind(12)]
+#[kani::unwind(3)]
 fn c16_lookup() {
     let c: [u8; 3] = kani::any();
     let (level, line, col) = (c[0], c[1] as usize, c[2] as usize);
     kani::assume(level < 3 && line >= 1 && line <= 5 && col <= 45);
     let a = doc_tree();
-    let rr = ref_ranges(&a, level);
-    let mut want: Option<(usize, usize, usize)> = None;
-    let mut k = 0;
-    while k < rr.n { let (l, s, e) = rr.s[k]; if want.is_none() && l == line && s <= col && col <= e { want = Some(rr.s[k]); } k += 1; }
+    let want = first_containing(level, line, col);
     let got = traverse::find_symbol_at_line_col(&a, filter_of(level), (line, col));
     match (want, got) {
         (None, None) => (),
@@ -83,7 +79,7 @@ fn c16_lookup() {
         (None, Some(_)) => assert!(false, "a position outside every name range finds nothing"),
     }
     kani::cover!(line == 1 && col == 10 && level == 2, "pointing at the package name");
-    kani::cover!(line == 4 && col == 9, "pointing at a nested type name");
+    kani::cover!(line == 4 && col == 9 && level == 2, "pointing at a nested type name");
     kani::cover!(line == 4 && col == 22 && level == 2, "pointing at an array element type (shares its range with the array)");
     std::mem::forget(a);
 }
